@@ -501,8 +501,7 @@ def _bounded_more(ct, tier, seed):
             note('C12.runtime.rms_spot_vs_field_is_spot_rms_at_each_field', False, 'raised %s: %s' % (type(ex).__name__, ex), inputs)
         # (b) grid distortion: real chief-ray landing points over the field grid, predicted points from the small-field scale
         try:
-            for dtype_ in ('f-tan', 'f-theta'):
-                npts = 3
+            for dtype_, npts in (('f-tan', 3), ('f-theta', 3), ('f-tan', 11), ('f-theta', 6)):
                 gd = analysis.GridDistortion(L, num_points=npts, distortion_type=dtype_)
                 ext = np.linspace(-np.sqrt(2) / 2, np.sqrt(2) / 2, npts)
                 HX, HY = np.meshgrid(ext, ext)
@@ -529,8 +528,12 @@ def _bounded_more(ct, tier, seed):
                      '%s %s: xp %s vs %s' % (lname, dtype_, gd.data['xp'][0], xp[0]), inputs)
                 delta = np.sqrt((xp - xr) ** 2 + (yp - yr) ** 2)
                 rp = np.sqrt(xp ** 2 + yp ** 2)
-                note('C12.runtime.grid_distortion_maximum_is_largest_relative_departure', eq(gd.data['max_distortion'], np.nanmax(100 * delta / rp), 1e-6),
-                     '%s %s: %s vs %s' % (lname, dtype_, gd.data['max_distortion'], np.nanmax(100 * delta / rp)), inputs)
+                # the axial node of an odd grid has no relative departure (its predicted radius is zero -- or a rounding residue of the
+                # grid coordinates, 1e-17): it is not a candidate for the maximum
+                off_axis = np.hypot(HX, HY) > 1e-9
+                want_max = np.max(100 * delta[off_axis] / rp[off_axis])
+                note('C12.runtime.grid_distortion_maximum_is_largest_relative_departure', eq(gd.data['max_distortion'], want_max, 1e-6),
+                     '%s %s %d x %d: %s vs %s' % (lname, dtype_, npts, npts, gd.data['max_distortion'], want_max), inputs)
         except Exception as ex:
             note('C12.runtime.grid_distortion_real_points_are_chief_ray_landing_points', False, 'raised %s: %s' % (type(ex).__name__, ex), inputs)
         # (c) pupil aberration: departure of the real ray at the stop from the paraxial pupil coordinate, in percent of the stop radius
